@@ -7,6 +7,7 @@ import (
 	"bytes"
 	"fmt"
 	"math/big"
+	"strings"
 	"sync"
 	"sync/atomic"
 	"testing"
@@ -163,6 +164,11 @@ func TestC14(t *testing.T) {
 		h := sim.NewHist(c, genSpec(c), genWorldOpts(c))
 		h.Intents = sim.DefaultIntents()
 		a := h.A
+		if c.Bool("eventReaders") {
+			// queries that run at the instant a momentum is inserted or deleted (they only read)
+			a.WatchEvents()
+			c.Class("queries-at-momentum-events")
+		}
 		a2 := h.W.AddNode("A2", true)
 		h2 := sim.NewHistOn(c, h.W, a2, h)
 		model := &c14model{acc: map[types.Address]*c14acc{}}
@@ -392,6 +398,53 @@ func TestC14(t *testing.T) {
 			model.afterMomentum(a, users)
 			c.Class("momentum-confirming-other-blocks")
 		}
+		// a reorganisation: the node produces 1-2 momentums from its pool, the other producer (not told) grows a longer
+		// branch with other blocks, the node adopts it. A momentum rollback empties the pool (every pooled block was
+		// executed on a view of the abandoned branch); confirmed tips are the adopted branch's.
+		reorg := func() {
+			if !syncTo(a2, a) {
+				return
+			}
+			base := a.Height()
+			k := c.Int("reorg.k", 1, 2)
+			for i := 0; i < k; i++ {
+				if !h.Produce(0) {
+					return
+				}
+				model.afterMomentum(a, users)
+			}
+			for i := 0; i <= k; i++ {
+				if c.Bool("reorg.block") {
+					u := users[c.Pick("reorg.user", len(users))]
+					_, _ = h2.Submit(&nom.AccountBlock{BlockType: nom.BlockTypeUserSend, Address: u, ToAddress: users[c.Pick("reorg.to", len(users))],
+						TokenStandard: types.ZnnTokenStandard, Amount: big.NewInt(int64(c.Int("reorg.amt", 100, 150)))}, "on A2 (other branch): block of "+u.String()[:10])
+				}
+				if !h2.Produce(c.Weighted("reorg.skip", 5, 1)) {
+					return
+				}
+			}
+			if a2.Height() <= a.Height() {
+				return
+			}
+			rolledBack := !sameAt(a, a2, base+1)
+			if _, err := a.Bridge.InsertChain(a2.Range(base+1, a2.Height())); err != nil {
+				c.Failf("C14/longer-branch-refused", "the node refused the honest, strictly longer branch of the other producer (fork depth %d): %v", k, err)
+			}
+			if rolledBack {
+				c.Class("reorganisation")
+			}
+			// what survives a rollback in the pool is C06's subject; here: whatever the pool holds afterwards is one chain
+			// per account on the adopted branch's confirmed tips (checked by the invariant below) that a momentum can be
+			// built from
+			for _, u := range users {
+				model.get(u).confH = ^uint64(0) // force the confirmed tip to be re-read
+			}
+			model.afterMomentum(a, users)
+			model.resync(a, users)
+			if _, err := a.BuildMomentum(0); err != nil && !strings.Contains(err.Error(), "no key for elected producer") {
+				c.Failf("C14/pool-not-producible", "after adopting the longer branch (fork depth %d) no momentum can be built from what the pool holds: %v", k, err)
+			}
+		}
 		everProducing := map[types.Address]bool{}
 		inv := func() {
 			if h.Dead || h2.Dead {
@@ -455,7 +508,7 @@ func TestC14(t *testing.T) {
 		}
 		acts := map[string]func(){
 			"next": next, "next2": next, "next3": next, "fork": fork, "fork2": fork, "below": below, "reinsert": reinsert,
-			"ownMomentum": ownMomentum, "foreignMomentum": foreignMomentum, "staleOwnMomentum": staleOwnMomentum, "staleOwnMomentum2": staleOwnMomentum,
+			"ownMomentum": ownMomentum, "foreignMomentum": foreignMomentum, "reorg": reorg, "staleOwnMomentum": staleOwnMomentum, "staleOwnMomentum2": staleOwnMomentum,
 			"call":    func() { h.ActIntent(); model.resync(a, users) },
 			"callABI": func() { h.ActCallABI(); model.resync(a, users) },
 		}
